@@ -257,6 +257,96 @@ def restyle_formats(tree, ref):
     return total
 
 
+def _bool_returns(fn):
+    return sum(1 for n in _own_walk(fn) if isinstance(n, ast.Return) and isinstance(n.value, ast.Constant) and isinstance(n.value.value, bool))
+
+
+def _is_boolean(e):
+    """an expression whose value is always True or False: comparisons, `not`, isinstance, and/or of those"""
+    if isinstance(e, ast.Compare):
+        return True
+    if isinstance(e, ast.UnaryOp) and isinstance(e.op, ast.Not):
+        return True
+    if isinstance(e, ast.BoolOp):
+        return all(_is_boolean(v) for v in e.values)
+    if isinstance(e, ast.Call) and isinstance(e.func, ast.Name) and e.func.id in ('isinstance', 'bool', 'callable', 'hasattr'):
+        return True
+    return False
+
+
+def expand_bool_returns(tree, ref):
+    """`return a == b and c` where the reference wrote `if ...: return True` / `return False`:  ->  `if a == b and c: return True`
+    followed by `return False`.  Same value on every path because the expression is boolean."""
+    known = ref.get('bool_returns')
+    if known is None:
+        return 0
+    total = 0
+    for q, fn in functions(tree):
+        if known.get(q, 0) < 2 or _bool_returns(fn) >= known[q]:
+            continue
+        for block in _blocks(fn):
+            for i, st in enumerate(block):
+                if isinstance(st, ast.Return) and st.value is not None and not isinstance(st.value, ast.Constant) and _is_boolean(st.value):
+                    t = ast.copy_location(ast.Return(value=ast.copy_location(ast.Constant(value=True), st)), st)
+                    f_ = ast.copy_location(ast.Return(value=ast.copy_location(ast.Constant(value=False), st)), st)
+                    block[i:i + 1] = [ast.copy_location(ast.If(test=st.value, body=[t], orelse=[]), st), f_]
+                    total += 1
+                    break
+    return total
+
+
+def expand_suppress(tree, ref):
+    """`with contextlib.suppress(E): BODY`  ->  `try: BODY  except E: pass`  (what suppress does, for a with statement of its own)"""
+    frm, mods = import_shape(tree)
+    names = {a for a, q in frm.items() if q == 'contextlib.suppress'}
+    if 'suppress' in ref.get('from_imports', {}) or not (names or 'contextlib' in mods):
+        return 0
+    total = 0
+    for q, fn in functions(tree):
+        for block in _blocks(fn):
+            for i, st in enumerate(block):
+                if isinstance(st, ast.With) and len(st.items) == 1 and st.items[0].optional_vars is None and isinstance(st.items[0].context_expr, ast.Call):
+                    c = st.items[0].context_expr
+                    if (_txt(c.func) in names or _txt(c.func) == 'contextlib.suppress') and c.args and not c.keywords:
+                        typ = c.args[0] if len(c.args) == 1 else ast.Tuple(elts=list(c.args), ctx=ast.Load())
+                        h = ast.ExceptHandler(type=typ, name=None, body=[ast.copy_location(ast.Pass(), st)])
+                        block[i] = ast.copy_location(ast.Try(body=st.body, handlers=[ast.copy_location(h, st)], orelse=[], finalbody=[]), st)
+                        total += 1
+    return total
+
+
+def restore_self(tree, ref):
+    """A method the reference wrote with `self` that was made a @staticmethod (it never used self) gets its first parameter back;
+    `Class.m(..)` calls from methods of the class become `self.m(..)`.  Which object the function is looked up on does not change what
+    it computes."""
+    if 'decos' not in ref:
+        return 0
+    known, decos = set(ref.get('funcs', [])), ref['decos']
+    total = 0
+    for q, c in classes(tree):
+        changed = set()
+        for st in c.body:
+            if not isinstance(st, ast.FunctionDef):
+                continue
+            fq = '%s.%s' % (q, st.name)
+            d = [_txt(x) for x in st.decorator_list]
+            if fq in known and d == ['staticmethod'] and 'staticmethod' not in decos.get(fq, []) and \
+                    not any(isinstance(n, ast.Name) and n.id == 'self' for n in ast.walk(st)) and not any(a.arg == 'self' for a in st.args.args):
+                st.decorator_list = []
+                st.args.args.insert(0, ast.arg(arg='self', annotation=None))
+                changed.add(st.name)
+        if not changed:
+            continue
+        short = q.split('.')[-1]
+        for st in c.body:
+            if isinstance(st, ast.FunctionDef) and st.args.args and st.args.args[0].arg == 'self' and not st.decorator_list:
+                for n in ast.walk(st):
+                    if isinstance(n, ast.Attribute) and n.attr in changed and isinstance(n.value, ast.Name) and n.value.id == short:
+                        n.value.id = 'self'
+        total += len(changed)
+    return total
+
+
 def restore_closures(tree, ref):
     """A nested function of the reference that became a private method bound with functools.partial (or a lambda) at the place
     where the closure was passed:  partial(self._m, a, b)  ->  the nested function again, with a, b captured.  Only when the bound
@@ -367,6 +457,8 @@ def shape_of(tree):
         'attrs': {q: class_attr_order(c) for q, c in classes(tree)},
         'ifexps': {q: ifexp_texts(f) for q, f in functions(tree) if ifexp_texts(f)},
         'fmt': {q: fmt_shape(f) for q, f in functions(tree) if fmt_shape(f)},
+        'decos': {q: [_txt(d) for d in f.decorator_list] for q, f in functions(tree) if f.decorator_list},
+        'bool_returns': {q: _bool_returns(f) for q, f in functions(tree) if _bool_returns(f)},
     }
 
 
@@ -451,6 +543,10 @@ def _literal(node, env):
     if isinstance(node, ast.Attribute) and _txt(node) in ('np.pi', 'math.pi', 'numpy.pi'):
         import math
         return math.pi
+    if isinstance(node, ast.Call) and _txt(node.func) == 'len' and len(node.args) == 1 and not node.keywords:
+        v = _literal(node.args[0], env)
+        if isinstance(v, (str, bytes, tuple)):
+            return len(v)
     if isinstance(node, ast.Call) and _txt(node.func) == 'struct.calcsize' and len(node.args) == 1:
         import struct
         f = _literal(node.args[0], env)
@@ -567,22 +663,23 @@ def inline_constants(tree, ref):
     for st in tree.body:
         for t in _targets(st):
             cnt[t] = cnt.get(t, 0) + 1
-    env = {}
+    env, kenv = {}, {}                  # new constants (inlined) / constants the reference knows (only read when evaluating new ones)
     for st in tree.body:
         for t in _targets(st):
-            if t in known or cnt[t] != 1:
+            if cnt[t] != 1:
                 continue
             try:
-                v = _literal(st.value, dict(env, __static__=True))
+                v = _literal(st.value, dict(kenv, **dict(env, __static__=True)))
             except ValueError:
                 continue
             if isinstance(v, (int, float, str, bytes, tuple)) and not isinstance(v, (bool, _Static)):
-                env[t] = v
+                (kenv if t in known else env)[t] = v
     # names re-bound anywhere else (global statements, function locals of the same name are handled by shadowing below)
     for node in ast.walk(tree):
         if isinstance(node, ast.Global):
             for x in node.names:
                 env.pop(x, None)
+                kenv.pop(x, None)
     if env:
         for q, fn in functions(tree):
             if '.<locals>.' in q:
@@ -715,9 +812,20 @@ def inline_struct_objects(tree, ref):
                 if (prefix + t) not in known and isinstance(v, ast.Call) and _txt(v.func) == 'struct.Struct' and len(v.args) == 1 and isinstance(v.args[0], ast.Constant) \
                         and isinstance(v.args[0].value, str):
                     fmts[t] = v.args[0].value
+    regs = {}
+
+    def collect_re(body, prefix):
+        for st in body:
+            for t in _targets(st):
+                v = st.value
+                if (prefix + t) not in known and isinstance(v, ast.Call) and _txt(v.func) == 're.compile' and 1 <= len(v.args) <= 2 and not v.keywords and \
+                        all(isinstance(a, (ast.Constant, ast.Attribute, ast.BinOp)) for a in v.args) and isinstance(v.args[0], ast.Constant):
+                    regs[t] = v.args
     collect(tree.body, '')
+    collect_re(tree.body, '')
     for q, c in classes(tree):
         collect(c.body, q + '.')
+        collect_re(c.body, q + '.')
     n = [0]
 
     def base_name(x):
@@ -735,6 +843,13 @@ def inline_struct_objects(tree, ref):
                 n[0] += 1
                 return ast.copy_location(ast.Call(func=ast.Attribute(value=ast.Name(id='struct', ctx=ast.Load()), attr=f.attr, ctx=ast.Load()),
                                                   args=[ast.Constant(value=fmts[base_name(f.value)])] + node.args, keywords=node.keywords), node)
+            # PATTERN = re.compile(p[, flags]);  PATTERN.search(x) -> re.search(p, x[, flags])
+            if isinstance(f, ast.Attribute) and f.attr in ('search', 'match', 'fullmatch', 'findall', 'finditer', 'split', 'sub', 'subn') and base_name(f.value) in regs \
+                    and not node.keywords and len(node.args) == (2 if f.attr in ('sub', 'subn') else 1):
+                n[0] += 1
+                ra = regs[base_name(f.value)]
+                return ast.copy_location(ast.Call(func=ast.Attribute(value=ast.Name(id='re', ctx=ast.Load()), attr=f.attr, ctx=ast.Load()),
+                                                  args=[copy.deepcopy(ra[0])] + node.args, keywords=[ast.keyword(arg='flags', value=copy.deepcopy(ra[1]))] if len(ra) == 2 else []), node)
             return node
 
         def visit_Attribute(self, node):
@@ -743,7 +858,7 @@ def inline_struct_objects(tree, ref):
                 n[0] += 1
                 return ast.copy_location(ast.Constant(value=_struct.calcsize(fmts[base_name(node.value)])), node)
             return node
-    if fmts:
+    if fmts or regs:
         for i, st in enumerate(tree.body):
             tree.body[i] = T().visit(st)
     # a, = struct.unpack('<one field>', x)
@@ -814,12 +929,17 @@ def _bind(helper, call, skip_first):
             isinstance(n, ast.Name) and n.id == p for root in _stmt_exprs(body0[0]) for n in ast.walk(root))
         # `self.x` handed to a helper that only calls methods of that parameter (and pure builtins / the logger) and stores no
         # attribute: nothing in the body can re-bind self.x, reading it at each use gives the object the parameter held
-        quiet_attr = isinstance(v, ast.Attribute) and isinstance(v.value, ast.Name) and _quiet_body(helper, p)
+        quiet_attr = isinstance(v, ast.Attribute) and isinstance(v.value, ast.Name) and (_quiet_body(helper, p) or _class_constant(v, helper))
         if p not in stored and (stable or first_stmt_only or quiet_attr):
             sub[p] = v
         else:
             lead.append(ast.copy_location(ast.Assign(targets=[ast.Name(id=p, ctx=ast.Store())], value=copy.deepcopy(v), lineno=call.lineno), call))
     return sub, lead
+
+
+def _class_constant(v, helper):
+    """self.NAME / Class.NAME in upper case that the helper does not store: a class constant by the convention of this code base"""
+    return v.attr.isupper() and not any(isinstance(n, ast.Attribute) and n.attr == v.attr and isinstance(n.ctx, (ast.Store, ast.Del)) for n in ast.walk(helper))
 
 
 def _quiet_body(helper, param):
@@ -875,13 +995,29 @@ def _has_doc(stmts):
     return bool(stmts) and isinstance(stmts[0], ast.Expr) and isinstance(stmts[0].value, ast.Constant) and isinstance(stmts[0].value.value, str)
 
 
-def _expand_call(stmt, call, helper, skip_first):
+def _expand_call(stmt, call, helper, skip_first, caller_names=frozenset()):
     """statements replacing ``stmt`` when ``call`` (inside it) is expanded with the body of ``helper``; None if this site cannot be expanded"""
     b = _bind(helper, call, skip_first)
     if b is None:
         return None
     sub, lead = b
     body = copy.deepcopy(helper.body[1:] if _has_doc(helper.body) else helper.body)
+    # names the helper binds itself (its locals, and parameters that need a leading assignment) live in their own scope: where the
+    # caller uses the same name for something else they get a name of their own
+    own = (set(_stores(body)) | {t.id for a in lead for t in a.targets if isinstance(t, ast.Name)}) - set(sub)
+    clash = {n_: '%s__%s' % (n_, helper.name.strip('_')) for n_ in own if n_ in caller_names}
+    if clash:
+        if any(isinstance(n, (ast.Global, ast.Nonlocal, ast.FunctionDef, ast.ClassDef)) or
+               (isinstance(n, ast.Lambda) and any(a.arg in clash for a in n.args.args + n.args.kwonlyargs)) for x in body for n in ast.walk(x)):
+            return None
+        for x in body:
+            for n in ast.walk(x):
+                if isinstance(n, ast.Name) and n.id in clash:
+                    n.id = clash[n.id]
+        for a in lead:
+            for t in a.targets:
+                if isinstance(t, ast.Name) and t.id in clash:
+                    t.id = clash[t.id]
     if sub:
         s_ = _Subst(sub)
         body = [s_.visit(x) for x in body]
@@ -893,7 +1029,7 @@ def _expand_call(stmt, call, helper, skip_first):
     if isinstance(stmt, ast.Expr) and stmt.value is call:
         if not _tail_returns_to(body, lambda r: [ast.copy_location(ast.Expr(value=r.value), r)] if r.value is not None and not _simple_arg(r.value) else [ast.copy_location(ast.Pass(), r)]):
             return None
-        return lead + body
+        return lead + _untuple(body)
     # (b) return call
     if isinstance(stmt, ast.Return) and stmt.value is call:
         if not body or not isinstance(body[-1], (ast.Return, ast.Raise)) and not _all_paths_leave(body):
@@ -1170,6 +1306,8 @@ def inline_helpers(tree, ref):
                     continue
                 changed = True
                 guard = 0
+                # names of the caller before this helper is expanded into it (a second expansion of the same helper re-uses its locals)
+                cn = {n.id for n in ast.walk(caller) if isinstance(n, ast.Name)} | {a.arg for a in caller.args.args + caller.args.kwonlyargs}
                 while changed and guard < 20:
                     changed = False
                     guard += 1
@@ -1187,7 +1325,7 @@ def inline_helpers(tree, ref):
                                     break
                             if hit is None:
                                 continue
-                            rep = _expand_call(st, hit, helper, skip_first=(cls_q is not None and not is_static))
+                            rep = _expand_call(st, hit, helper, skip_first=(cls_q is not None and not is_static), caller_names=cn)
                             if rep is None:
                                 continue
                             rep = rep or [ast.copy_location(ast.Pass(), st)]
@@ -1278,6 +1416,11 @@ def inline_temps(tree, path, ref_locals):
             unknown = [h for h in have if h not in want]
             if not unknown:
                 break
+            # `a, b = x, y` binding names the reference does not have: one binding each (when no element reads an earlier target)
+            for block in _blocks(fn):
+                if any(isinstance(st, ast.Assign) and len(st.targets) == 1 and isinstance(st.targets[0], ast.Tuple) and isinstance(st.value, ast.Tuple) and
+                       any(isinstance(t, ast.Name) and t.id in unknown for t in st.targets[0].elts) for st in block):
+                    block[:] = _untuple(block)
             missing = [w for w in want if w not in have]
             if len(unknown) <= len(missing):
                 break               # plain renames are the business of the alpha pass
@@ -1544,7 +1687,9 @@ def expand_comprehensions(tree, ref):
             for block in _blocks(fn):
                 for i, st in enumerate(block):
                     ann = isinstance(st, ast.AnnAssign) and st.value is not None and isinstance(st.target, ast.Name)
-                    if not ann and not (isinstance(st, ast.Assign) and len(st.targets) == 1 and isinstance(st.targets[0], ast.Name)):
+                    self_attr = isinstance(st, ast.Assign) and len(st.targets) == 1 and isinstance(st.targets[0], ast.Attribute) and \
+                        isinstance(st.targets[0].value, ast.Name) and st.targets[0].value.id == 'self'
+                    if not ann and not self_attr and not (isinstance(st, ast.Assign) and len(st.targets) == 1 and isinstance(st.targets[0], ast.Name)):
                         continue
                     v, kind = st.value, None
                     if isinstance(v, ast.ListComp):
@@ -1555,7 +1700,15 @@ def expand_comprehensions(tree, ref):
                         comp, kind = v.args[0], _txt(v.func)
                     if kind is None or _shape_txt(comp) in keep:
                         continue
-                    tgt = st.target.id if ann else st.targets[0].id
+                    if self_attr:
+                        # self.x = {..}: nothing evaluated while building may look at self.x (it is bound only afterwards): no calls on self,
+                        # no mention of the attribute
+                        if kind in ('sum',) or any((isinstance(n, ast.Attribute) and n.attr == st.targets[0].attr) or
+                                                   (isinstance(n, ast.Call) and isinstance(n.func, ast.Attribute) and isinstance(n.func.value, ast.Name) and n.func.value.id == 'self')
+                                                   for n in ast.walk(comp)):
+                            continue
+                    tgt = st.target.id if ann else (st.targets[0].id if not self_attr else None)
+                    tnode = (lambda ctx_: ast.Name(id=tgt, ctx=ctx_)) if not self_attr else (lambda ctx_: ast.Attribute(value=ast.Name(id='self', ctx=ast.Load()), attr=st.targets[0].attr, ctx=ctx_))
                     cvars = {n.id for g in comp.generators for n in ast.walk(g.target) if isinstance(n, ast.Name)}
                     # the loop variables become function locals: they must not collide with anything else in the function
                     elsewhere = [n for n in ast.walk(fn) if isinstance(n, ast.Name) and n.id in cvars and not any(n is x for x in ast.walk(comp))
@@ -1564,13 +1717,13 @@ def expand_comprehensions(tree, ref):
                         continue
                     if kind in ('list',):
                         init = ast.List(elts=[], ctx=ast.Load())
-                        leaf = ast.Expr(value=ast.Call(func=ast.Attribute(value=ast.Name(id=tgt, ctx=ast.Load()), attr='append', ctx=ast.Load()), args=[comp.elt], keywords=[]))
+                        leaf = ast.Expr(value=ast.Call(func=ast.Attribute(value=tnode(ast.Load()), attr='append', ctx=ast.Load()), args=[comp.elt], keywords=[]))
                     elif kind == 'dict':
                         init = ast.Dict(keys=[], values=[])
-                        leaf = ast.Assign(targets=[ast.Subscript(value=ast.Name(id=tgt, ctx=ast.Load()), slice=comp.key, ctx=ast.Store())], value=comp.value, lineno=st.lineno)
+                        leaf = ast.Assign(targets=[ast.Subscript(value=tnode(ast.Load()), slice=comp.key, ctx=ast.Store())], value=comp.value, lineno=st.lineno)
                     else:
                         init = ast.Constant(value=0)
-                        leaf = ast.AugAssign(target=ast.Name(id=tgt, ctx=ast.Store()), op=ast.Add(), value=comp.elt)
+                        leaf = ast.AugAssign(target=tnode(ast.Store()), op=ast.Add(), value=comp.elt)
                     body = [ast.copy_location(leaf, st)]
                     for g in reversed(comp.generators):
                         for c in reversed(g.ifs):
@@ -1582,7 +1735,7 @@ def expand_comprehensions(tree, ref):
                     if ann:
                         first = ast.AnnAssign(target=ast.Name(id=tgt, ctx=ast.Store()), annotation=st.annotation, value=init, simple=1)
                     else:
-                        first = ast.Assign(targets=[ast.Name(id=tgt, ctx=ast.Store())], value=init, lineno=st.lineno)
+                        first = ast.Assign(targets=[tnode(ast.Store())], value=init, lineno=st.lineno)
                     block[i:i + 1] = [ast.copy_location(first, st)] + body
                     changed = True
                     total += 1
@@ -1615,9 +1768,9 @@ def normalise(tree, path, ref_locals):
         return {}
     out = {}
     for name, fn in (('annotations', lambda: strip_annotations(tree, ref)), ('imports', lambda: normalise_imports(tree, ref)), ('attributes', lambda: rename_attributes(tree, ref)),
-                     ('methods', lambda: rename_methods(tree, ref)), ('formats', lambda: restyle_formats(tree, ref)), ('closures', lambda: restore_closures(tree, ref)), ('constants', lambda: _constants(tree, ref)),
+                     ('methods', lambda: rename_methods(tree, ref)), ('formats', lambda: restyle_formats(tree, ref)), ('closures', lambda: restore_closures(tree, ref)), ('self', lambda: restore_self(tree, ref)), ('suppress', lambda: expand_suppress(tree, ref)), ('constants', lambda: _constants(tree, ref)),
                      ('structs', lambda: inline_struct_objects(tree, ref)),
-                     ('helpers', lambda: inline_helpers(tree, ref)), ('ifexps', lambda: expand_ifexps(tree, ref)),
+                     ('helpers', lambda: inline_helpers(tree, ref)), ('ifexps', lambda: expand_ifexps(tree, ref)), ('boolreturns', lambda: expand_bool_returns(tree, ref)),
                      ('unrolled', lambda: unroll_loops(tree, ref)),
                      ('comprehensions', lambda: expand_comprehensions(tree, ref)),
                      ('temps', lambda: inline_temps(tree, path, ref_locals or {}))):
